@@ -344,16 +344,22 @@ func modeGen(args []string) {
 				opts.maxIn = 16
 			}
 		case cls < 90:
-		case cls < 94:
+		case cls < 93:
 			opts.defect = "lit_signed_narrow"
 			opts.small = r.Bool()
 			opts.maxIn = exhLimit
+		case cls < 94:
+			opts.defect = "const_left_unsigned"
 		case cls < 97:
 			opts.defect = "inner_shadow"
 			opts.small = r.Bool()
 			opts.maxIn = exhLimit
-		case cls < 99:
+		case cls < 98:
 			opts.defect = "cast_int_wider_uint"
+			opts.small = r.Bool()
+			opts.maxIn = exhLimit
+		case cls < 99:
+			opts.defect = "const_cast_shared"
 			opts.small = r.Bool()
 			opts.maxIn = exhLimit
 		default:
